@@ -611,3 +611,67 @@ Example ex_one_shot_run :
   map (fun y => (y_start y, y_done y)) (timer_cycles 50 ex_cfg_one_shot wit_env_plain 0
       [mkentry 250 0 (OTemp (Some 500)); mkentry 0 0 OOk; mkentry 0 0 OOk]) = [(0, false); (750, true)].
 Proof. vm_compute. reflexivity. Qed.
+
+(* ------------------------------------------------------------------ fuel: the idle wait needs at most |changes|+2 iterations *)
+Lemma irt_fold_in rs : forall a t,
+  fold_left (fun acc r => if r <=? t then Z.max acc r else acc) rs a = a \/
+  In (fold_left (fun acc r => if r <=? t then Z.max acc r else acc) rs a) rs.
+Proof.
+  induction rs as [|r rs IH]; intros a t; cbn [fold_left]; [left; reflexivity|].
+  destruct (IH (if r <=? t then Z.max a r else a) t) as [E|Hin].
+  - rewrite E. destruct (r <=? t); [|left; reflexivity].
+    destruct (Z.max_spec a r) as [[_ ->]|[_ ->]]; [right; left; reflexivity|left; reflexivity].
+  - right; right; exact Hin.
+Qed.
+
+Definition later (e : env) (x : Z) : nat := List.length (filter (fun r => x <? r) (v_resets e)).
+
+Lemma filter_len_le l x y : x <= y ->
+  (List.length (filter (fun r => (y <? r)%Z) l) <= List.length (filter (fun r => (x <? r)%Z) l))%nat.
+Proof.
+  intro H. induction l as [|r l IH]; cbn [filter]; [lia|].
+  destruct (Z.ltb_spec y r), (Z.ltb_spec x r); cbn [List.length]; lia.
+Qed.
+
+Lemma filter_len_lt l x y : x < y -> In y l ->
+  (List.length (filter (fun r => (y <? r)%Z) l) < List.length (filter (fun r => (x <? r)%Z) l))%nat.
+Proof.
+  intros H. induction l as [|r l IH]; intros Hin; [destruct Hin|]. cbn [filter].
+  destruct Hin as [->|Hin].
+  - rewrite Z.ltb_irrefl. destruct (Z.ltb_spec x y); [|lia]. cbn [List.length].
+    pose proof (filter_len_le l x y ltac:(lia)). lia.
+  - specialize (IH Hin). destruct (Z.ltb_spec y r), (Z.ltb_spec x r); cbn [List.length]; lia.
+Qed.
+
+Lemma later_le_length e x : (later e x <= List.length (v_resets e))%nat.
+Proof.
+  unfold later. induction (v_resets e) as [|r l IH]; cbn [filter List.length]; [lia|].
+  destruct (x <? r); cbn [List.length]; lia.
+Qed.
+
+Lemma idle_wait_fuel_aux e i : forall fuel now, (1 <= fuel)%nat ->
+  (negb (stopped e now) && (now - irt e now <? i) = true -> (later e (irt e now) + 2 <= fuel)%nat) ->
+  forall evs t, idle_wait fuel e i now <> (evs, WEnd (FFuel t)).
+Proof.
+  induction fuel as [|f IH]; intros now Hf Hb evs t; [lia|]. cbn [idle_wait].
+  destruct (negb (stopped e now) && (now - irt e now <? i)) eqn:Ec; [|discriminate].
+  specialize (Hb eq_refl). apply andb_true_iff in Ec. destruct Ec as [Es Elt].
+  apply negb_true_iff in Es. apply Z.ltb_lt in Elt.
+  destruct (sleep e now (irt e now + i - now)) as [t1|] eqn:Esl; [|discriminate].
+  destruct (idle_wait f e i t1) as [evs' r'] eqn:Er. intro E. injection E as _ ->.
+  apply (IH t1 ltac:(lia)) with (evs := evs') (t := t); [|exact Er].
+  intro Ec1. apply andb_true_iff in Ec1. destruct Ec1 as [Es1 Elt1].
+  apply negb_true_iff in Es1. apply Z.ltb_lt in Elt1.
+  pose proof (sleep_woke _ _ _ _ Esl) as (_ & Hx). specialize (Hx Es1).
+  assert (Hgt : irt e now < irt e t1) by lia.
+  assert (Hin : In (irt e t1) (v_resets e)).
+  { destruct (irt_fold_in (v_resets e) (v_irt0 e) t1) as [E0|Hin]; [|exact Hin].
+    fold (irt e t1) in E0. pose proof (irt_ge_irt0 e now). lia. }
+  pose proof (filter_len_lt (v_resets e) _ _ Hgt Hin) as Hlt. unfold later in *. lia.
+Qed.
+
+Lemma idle_wait_fuel_enough e i fuel now evs t : (List.length (v_resets e) + 2 <= fuel)%nat ->
+  idle_wait fuel e i now <> (evs, WEnd (FFuel t)).
+Proof.
+  intro H. apply idle_wait_fuel_aux; [lia|]. intros _. pose proof (later_le_length e (irt e now)). lia.
+Qed.
